@@ -42,6 +42,8 @@ func runFldOps(spec *Sx, ops []*Sx) []string {
 		case "reset":
 			f = buildField(spec)
 			out = append(out, "ok")
+		case "note":
+			out = append(out, "ok")
 		}
 	}
 	return out
@@ -115,6 +117,8 @@ func runMsgOps(spec *Sx, ops []*Sx) []string {
 		case "bitmap":
 			b, _ := m.Bitmap().Bytes()
 			out = append(out, xh(b))
+		case "note":
+			out = append(out, "ok")
 		}
 	}
 	return out
